@@ -633,6 +633,7 @@ func genConc(r *simrt.Rand, cfg *Config, pools *Pools, heavyReaders, linear bool
 						nc.Async = false
 					}
 				}
+				nc.OffStruct = r.Bool()
 				op.NCfg = &nc
 			}
 			ops = append(ops, op)
